@@ -45,6 +45,43 @@ def scenario(conts, overcommit):
     return dict(name="F3", tps=TPS, pools=1, cpus=8, ram=ram, overcommit=overcommit, multi=True, horizon=life + 2, pipelines=pipes)
 
 
+def drift_cases(tier):
+    """fully allocated pools at decimal tick rates: every container grows to exactly its allocation, so the real
+    total reaches exactly the capacity while any incrementally tracked figure has had time to drift"""
+    out = []
+    for tps, allocs_set in ((10, (5, 15, 25)), (100, (0.5, 1.5, 2.5))):
+        for n in ((3, 4) if tier == "quick" else (3, 4, 5)):
+            for allocs in itertools.product(allocs_set, repeat=n):
+                for offs in itertools.product(range(0, 3), repeat=n - 1):
+                    if list(offs) != sorted(offs):
+                        continue
+                    out.append((tps, tuple(allocs), (0,) + tuple(offs)))
+    return out
+
+
+def drift_scenario(case, overcommit):
+    tps, allocs, offs = case
+    pipes = [dict(prio="B", arrival=o, alloc=a, profile=f"grow-to-{a}", parents=[[]],
+                  ops=[[dict(cpu=4.5 / tps, scaling="const", mem=None, read=float(a))]]) for a, o in zip(allocs, offs)]
+    hor = int(max(allocs) / 20 * tps) + max(offs) + 8
+    return dict(name="F3-drift", tps=tps, pools=1, cpus=16, ram=float(sum(allocs)), overcommit=overcommit, multi=True, horizon=hor, pipelines=pipes)
+
+
+def drift_work(chunk):
+    tot = f1.new_acc()
+
+    class _Ch:
+        choices = []
+    for case in chunk:
+        for oc in (False, True):
+            sc = drift_scenario(case, oc)
+            w = run(sc)
+            s = f1.summarize(sc, _Ch, w)
+            s["mm"] = [(t, k, site, d, dict(drift=case, overcommit=oc)) for (t, k, site, d, _) in s["mm"]]
+            f1.merge(tot, s)
+    return tot
+
+
 def run(sc, trace=None):
     w = World(sc)
     try:
